@@ -2,7 +2,7 @@
 from props import schedcommon as sc
 
 PROPERTY = 'C02'
-THEOREMS = ['Sched.final_status_eq_spec']
+THEOREMS = ['Sched.final_status_eq_spec', 'Sched.schedule_independent', 'Sched.soft_never_blocks', 'Sched.InvB_step', 'Sched.InvB_init', 'Sched.spec_eq']
 BUDGET = {'quick': 250, 'thorough': 6000}
 TIME_LIMIT = {'quick': 55, 'thorough': 700}
 RULE = ('single runs from an empty environment' + '; the real QueueScheduling backend runs under the controlled scheduler; non-trivial = '
